@@ -285,6 +285,44 @@ class StrV(Val):
     return StrV()
 
 
+class FStrV(StrV):
+  """A string built from known pieces: python strs and (value, format spec,
+  conversion) triples.  Library contracts pattern-match on the pieces (e.g. a
+  checkpoint name is [base, (round, '08d')]); everything else treats it as an
+  unknown string."""
+
+  def __init__(self, parts):
+    self.parts = list(parts)
+
+  def normalized(self):
+    out = []
+    for p in self.parts:
+      if isinstance(p, tuple) and isinstance(p[0], str) and p[1] is None and p[2] == -1:
+        p = p[0]
+      if isinstance(p, tuple) and isinstance(p[0], FStrV) and p[1] is None and p[2] == -1:
+        out.extend(p[0].parts)
+        continue
+      if isinstance(p, str) and out and isinstance(out[-1], str):
+        out[-1] += p
+      elif p != '':
+        out.append(p)
+    if all(isinstance(p, str) for p in out):
+      return ''.join(out)
+    self.parts = out
+    return self
+
+  def binop(self, ctx, op, other, reflected):
+    if op == 'Add':
+      o = other.parts if isinstance(other, FStrV) else ([other] if isinstance(other, str) else None)
+      if o is None:
+        return StrV()
+      return FStrV(o + self.parts if reflected else self.parts + o).normalized()
+    return StrV()
+
+  def method(self, ctx, name, args, kwargs):
+    return StrV()
+
+
 class ExcV(Val):
   """An exception instance."""
 
@@ -393,6 +431,14 @@ class OptV(Val):
   def compare(self, ctx, op, other):
     v = self._need(ctx, 'compare')
     return ctx.engine.compare(ctx, op, v, other)
+
+  def unpack(self, ctx, n):
+    v = self._need(ctx, 'unpacking')
+    if isinstance(v, tuple):
+      return list(v)
+    if hasattr(v, 'unpack'):
+      return v.unpack(ctx, n)
+    return ctx.engine.concrete_items(ctx, v)
 
   def binop(self, ctx, op, other, reflected):
     v = self._need(ctx, 'arithmetic')
@@ -741,6 +787,12 @@ class ObjCell(Cell):
 
   def truth(self, ctx, ref):
     return True
+
+  def call(self, ctx, ref, args, kwargs):
+    m = self.cls.lookup('__call__') if self.cls is not None else None
+    if m is None:
+      raise Unsupported(f'call of {self.label or "object"}')
+    return ctx.engine.call_value(ctx, m, [ref] + list(args), kwargs)
 
   def havoc(self, ctx, base):
     c = self.clone()
